@@ -23,7 +23,7 @@ PREFIX_KINDS = {"mk_group": 6, "mk_object": 12, "add_data": 12, "add_comment": 2
 RO_KINDS = {"mk_group": 4, "mk_object": 5, "add_data": 6, "add_comment": 3, "add_file": 2, "set_values": 5, "rename": 5, "set_flag": 4, "set_meta": 4,
             "move": 3, "move_data": 2, "copy": 5, "rm_ws": 5, "rm_parent": 4, "pg_add": 4, "pg_rm": 2, "pg_del": 2, "pg_new": 2, "type_edit": 3, "mk_dup": 1,
             "observe": 6, "lookup": 4, "list": 4, "gc": 2,
-            "hole_attr": 4, "h_fetch_active": 3, "h_fetch_rplus": 2, "h_monitored_copy": 3, "h_uijson": 3, "copy_out": 4, "copy_in": 3, "reopen_r": 3, "coop_write": 0, "h_save_as_refused": 2, "h_fetch_r_on_closed": 2}
+            "hole_attr": 4, "h_fetch_active": 3, "h_fetch_rplus": 2, "h_monitored_copy": 3, "h_uijson": 3, "copy_out": 4, "copy_in": 3, "reopen_r": 3, "coop_write": 0, "h_save_as_refused": 2, "h_fetch_r_on_closed": 2, "c_pg_rm": 2, "c_set_values": 2, "c_add_data": 1}
 
 
 class ReadOnlyScenario(BaseScenario):
@@ -96,6 +96,20 @@ class ReadOnlyScenario(BaseScenario):
                     if world.suspect:
                         break
                 handle = world.h["A"]
+                # concatenated content for the read-only handle to be tried on: a depth table with two data sets on a stored hole
+                self._c10 = None
+                if not world.suspect:
+                    holes = sorted(u for u, r in handle.model.recs.items() if r.get("concat") and r["kind"] == "object")
+                    if holes:
+                        hole = world.ent("A", holes[0], fresh=True)
+                        try:
+                            hole.add_data({"c10a": {"depth": np.arange(3.0), "values": np.arange(3.0)}, "c10b": {"depth": np.arange(3.0), "values": np.arange(3.0) + 10.0}},
+                                          property_group="c10pg")
+                            self._c10 = holes[0]
+                            sim.probe("concat_content")
+                        except Exception:  # pylint: disable=broad-except
+                            self._c10 = None
+                        del hole
                 world.drop_all()
                 handle.ws.close()
                 handle.ws = None
@@ -124,7 +138,7 @@ class ReadOnlyScenario(BaseScenario):
                     op = ops[i] if ops is not None else self.gen_ro_op(world, rng, 1000 + i)
                     executed.append(op)
                     kind = op["k"]
-                    if kind.startswith("h_") or kind in ("copy_out", "copy_in", "reopen_r", "coop_write"):
+                    if kind.startswith(("h_", "c_")) or kind in ("copy_out", "copy_in", "reopen_r", "coop_write"):
                         outcome = self.special(world, sim, op, path, writer)
                         trace.append(f"{kind}:{outcome}")
                         if outcome == "reopened" or (outcome == "refused" and cfg.get("reopen_after_refusal")):
@@ -253,7 +267,7 @@ class ReadOnlyScenario(BaseScenario):
             kind = rng.choices(kinds, [RO_KINDS[k] for k in kinds])[0]
             sub = rng.getrandbits(64)
             orng = random.Random(H(sub, "args"))
-            if kind.startswith("h_") or kind in ("copy_out", "copy_in", "reopen_r", "coop_write"):
+            if kind.startswith(("h_", "c_")) or kind in ("copy_out", "copy_in", "reopen_r", "coop_write"):
                 t = world.target(orng, "A", "holder", lambda r: not r.get("concat_group") and not r.get("concat"))
                 return {"id": op_id, "k": kind, "sub": sub, "h": "A", "keep": False, "t": t, "children": orng.random() < 0.7}
             args = getattr(world, "gen_" + kind)(orng, "A")
@@ -363,6 +377,41 @@ class ReadOnlyScenario(BaseScenario):
             else:
                 ro.open()
             sim.probe("helper_fetch_rplus")
+            return "reopened"
+        if kind.startswith("c_"):
+            # edits of concatenated content (stored inside the drillhole group's node) through the read-only handle
+            if getattr(self, "_c10", None) is None:
+                return "skipped"
+            import uuid as _uuid
+
+            hole = ro.get_entity(_uuid.UUID(self._c10.strip("{}")))[0]
+            if hole is None:
+                return "skipped"
+            try:
+                if kind == "c_pg_rm":
+                    group = [g for g in (hole.property_groups or []) if g.name == "c10pg"]
+                    data = hole.get_data("c10a")
+                    if not group or not data:
+                        return "skipped"
+                    group[0].remove_properties(data[0])
+                elif kind == "c_set_values":
+                    data = hole.get_data("c10b")
+                    if not data:
+                        return "skipped"
+                    data[0].values = np.arange(3.0) + 100.0
+                else:
+                    hole.add_data({"c10c": {"depth": np.arange(3.0), "values": np.arange(3.0) + 20.0}}, property_group="c10pg")
+                raised = False
+            except Exception:  # pylint: disable=broad-except
+                raised = True
+            del hole
+            sim.probe("concat_edit_on_readonly")
+            if not raised and world.cfg.get("fresh_r", True):
+                raise Violation("C10", "write_not_refused", f"{kind}: an edit of concatenated drillhole content through the read-only workspace did not raise",
+                                {"op": kind, "cls": "Concatenated"})
+            world.drop_all()
+            ro.close()
+            handle.ws = self.open_ro(world.cfg, path, ro)
             return "reopened"
         if kind == "h_fetch_r_on_closed":
             # the helper is handed the CLOSED workspace and asked for read access: whatever the workspace's own
